@@ -160,6 +160,17 @@ func (a *adapter) Apply(s engine.Step) (engine.Fields, error) {
 		return nil, fmt.Errorf("unknown action %s", s.Act.Name)
 	}
 	if a.last == nil {
+		if s.Act.Name == "AddTx" || s.Act.Name == "AddTxs" {
+			// the call returned without passing the traced critical section (the one under the pool's write lock): whatever
+			// it did, it claims to have added nothing - the monitor accepts that only where the submission is a no-op
+			var txs types.Transactions
+			for _, v := range arg {
+				txs = append(txs, a.u.Tx[v.S()])
+			}
+			fl := a.u.fields(txpool.VerifPoolEvent{Op: s.Act.Name, Txs: txs})
+			fl["nohook"] = true
+			return fl, nil
+		}
 		return nil, fmt.Errorf("no hook event for %s (is the harness built with -tags verif?)", s.Act)
 	}
 	return a.u.fields(*a.last), nil
